@@ -263,12 +263,9 @@ class Git:
             folder = self._work_dir
 
         if folder:
-            args += [
-                "--git-dir",
-                (folder / ".git").as_posix(),
-                "--work-tree",
-                folder.as_posix(),
-            ]
+            # run inside the folder: paths are reported relative to it (and only
+            # for it), also when it is a sub-directory of the work tree
+            args += ["-C", folder.as_posix()]
 
         # -z: NUL-separated and unquoted (git C-quotes non-ASCII and special names otherwise)
         args += ["ls-files", "--others", "-i", "--exclude-standard", "-z"]
